@@ -6,6 +6,8 @@ import Gnet.Spec.ReactorSpec
 import Gnet.Proofs.ReactorLife
 import Gnet.Props.Handover
 import Gnet.Props.Drain
+import Gnet.Proofs.DrainOrder
+import Gnet.Gen.Facts
 import Gnet.Spec.ReactorExample
 import Gnet.Proofs.ReactorRuns
 namespace Gnet.Props.C07
@@ -56,6 +58,41 @@ theorem nothing_stranded (s : Drain.State) (h : Drain.Reachable s) (hq : Drain.Q
 theorem drain_partition (s : Drain.State) (h : Drain.Reachable s) :
     (s.ran ++ s.aborted ++ s.queue).Perm (List.range s.next) :=
   Props.Drain.drain_partition s h
+
+/-! ### The order of the calls in the source is the order of the protocol (tie: regenerated table `Facts.protocolSites`)
+
+`nothing_stranded` is a theorem about a protocol with a particular order of steps. `DrainOrder.step` is the same protocol
+with that order as a parameter; with the order of the code it IS Model/Drain.lean (`drain_order_embeds`), with either pair
+swapped a registration is stranded (`stranded_if_load_before_hand`, `stranded_if_drain_before_store`). The order the
+source has - which calls a function makes, one after the other - is extracted from the current tree on every run and has
+to be the order of the model (`drain_protocol_followed`): a change that re-orders, drops or adds one of these calls breaks
+this theorem. (Source order of calls, not a proof about Go control flow.) -/
+
+theorem drain_order_embeds (n : Nat) (steps : List Drain.Step) :
+    DrainOrder.run DrainOrder.asCoded (DrainOrder.init n) steps = DrainOrder.emb (Drain.run (Drain.init n) steps) ∧
+    DrainOrder.Quiescent (DrainOrder.emb (Drain.run (Drain.init n) steps)) =
+      Drain.Quiescent (Drain.run (Drain.init n) steps) := by
+  rw [← Proofs.DrainOrder.emb_init, Proofs.DrainOrder.embeds_run]
+  exact ⟨rfl, Proofs.DrainOrder.emb_quiescent _⟩
+
+/-- a producer that looks at `exited` before it hands its registration over strands it -/
+theorem stranded_if_load_before_hand :
+    let s := DrainOrder.run { storeFirst := true, handFirst := false } (DrainOrder.init 1)
+      [.load 0, .loopLeave, .loopSetExited, .loopDrain, .enqueue 0]
+    DrainOrder.Quiescent s = true ∧ s.queue = [0] ∧ s.ran = [] ∧ s.aborted = [] := by decide
+
+/-- a loop that drains before it publishes `exited` strands what arrives between its last Dequeue and the store -/
+theorem stranded_if_drain_before_store :
+    let s := DrainOrder.run { storeFirst := false, handFirst := true } (DrainOrder.init 1)
+      [.loopLeave, .loopSetExited, .loopDrain, .enqueue 0, .load 0, .loopSetExited]
+    DrainOrder.Quiescent s = true ∧ s.exited = true ∧ s.queue = [0] ∧ s.ran = [] ∧ s.aborted = [] := by decide
+
+theorem drain_protocol_followed : DrainOrder.followed Facts.protocolSites = true := by decide +kernel
+
+-- the predicate is not trivially true: the table with the two calls of abortPending swapped is rejected
+example : DrainOrder.followed
+    (Facts.protocolSites.map (fun e => if e.2.1 == "*eventloop.abortPending" then (e.1, e.2.1, ["drain", "store"]) else e))
+    = false := by decide +kernel
 
 end Gnet.Props.C07
 
